@@ -13,8 +13,8 @@ VerbsRouting   == {"QueryCluster", "AddCluster", "RemoveCluster", "AddBackend", 
                    "AddHFront", "RemoveHFront", "AddTFront", "RemoveTFront",
                    "RemoveListener", "AddListener", "Activate", "Deactivate"}
 VerbsWorker    == WorkerKinds \cup ClusterKinds \cup {"SoftStop", "HardStop", "ReturnSockets"}
-VerbsAll       == WorkerKinds \cup ClusterKinds \cup BackendKinds \cup HFrontKinds \cup TFrontKinds
-                  \cup ListenKinds \cup StopKinds
+VerbsAll       == WorkerKinds \cup ClusterKinds \cup BackendKinds \cup HFrontKinds \cup TFrontKinds \cup UFrontKinds
+                  \cup ListenKinds \cup StopKinds \cup MalformedKinds
 VerbsCore      == {"Status", "MetricDetailBad", "AddCluster", "AddClusterBadHc", "RemoveCluster",
                    "AddBackend", "RemoveBackend", "AddHFront", "RemoveHFront", "AddTFront", "RemoveTFront",
                    "AddListener", "RemoveListener", "Activate", "Deactivate", "UpdateListener",
@@ -27,4 +27,21 @@ VerbsFaults    == {"AddListener", "RemoveListener", "Activate", "Deactivate", "U
 \* ... and what a client is served once the address is free again (one http route, one tcp route)
 VerbsFaultsServe == {"Activate", "Deactivate", "AddBackend", "AddHFront", "AddTFront"}
 ServeNothingPreamble == <<[k |-> "AddListener", a |-> "hA"], [k |-> "AddListener", a |-> "tC"]>>
+\* C08, malformed requests (enum fields outside their enum, no request type, a kind of the main process):
+\* every one answered exactly once, the worker as it was, the next requests served as usual
+VerbsMalformed == MalformedKinds \cup {"Status", "AddListener", "Activate", "RemoveListener", "AddHFront", "SoftStop"}
+\* C08, one cluster published on several listeners of ONE kind, then redefined / removed / its backends changed
+VerbsSharedUdp  == {"AddCluster", "AddClusterAlt", "RemoveCluster", "AddUFront", "RemoveUFront", "AddBackend", "RemoveBackend",
+                    "UpdateListener"}
+VerbsSharedTcp  == {"AddCluster", "AddClusterAlt", "RemoveCluster", "AddTFront", "RemoveTFront", "AddBackend", "RemoveBackend"}
+VerbsSharedHttp == {"AddCluster", "AddClusterAlt", "RemoveCluster", "AddHFront", "RemoveHFront", "AddBackend", "RemoveBackend"}
+\* (exhaustive configuration of the class: the three kinds together, listener removal included)
+VerbsShared     == VerbsSharedUdp \cup {"AddTFront", "RemoveListener", "AddListener", "Activate"}
+TwoUdpPreamble  == <<[k |-> "AddListener", a |-> "uE"], [k |-> "Activate", a |-> "uE"],
+                     [k |-> "AddListener", a |-> "uF"], [k |-> "Activate", a |-> "uF"]>>
+TwoTcpPreamble  == <<[k |-> "AddListener", a |-> "tC"], [k |-> "Activate", a |-> "tC"],
+                     [k |-> "AddListener", a |-> "tG"], [k |-> "Activate", a |-> "tG"]>>
+TwoHttpPreamble == <<[k |-> "AddListener", a |-> "hA"], [k |-> "Activate", a |-> "hA"],
+                     [k |-> "AddListener", a |-> "hB"], [k |-> "Activate", a |-> "hB"]>>
+SharedPreamble  == TwoUdpPreamble \o <<[k |-> "AddListener", a |-> "tC"], [k |-> "Activate", a |-> "tC"]>>
 =============================================================================
